@@ -313,7 +313,8 @@ def make_history(q, env=None, prov=None):
         raw = {k: v.numpy() for k, v in fields.items()}
     else:
         idv = id_array(ids)
-        fields = {"rating": np.array(vals, dtype=np.float32 if form == "f32" else np.float64)}
+        fields = {"rating": np.array(vals, dtype={"f32": np.float32, "i64": np.int64}.get(form, np.float64))}
+        assert form != "i64" or all(float(x) == v for x, v in zip(fields["rating"], vals))
         if q.get("hist_extra"):
             fields["timestamp"] = np.array(ts, dtype=np.int64)
         raw = dict(fields)
